@@ -1,12 +1,12 @@
 from vlib.core import Check, Family
 
 # every catalogued model whose kernel model exists in OW/Kernels (kept in step with OW/Kernels/Registry.lean)
-from checks.models import ALL_MODELS
+from checks.models import ALL_MODELS, TOL_BY_MODEL, EXTRA_ARGS
 
 CHECK = Check(
     "C04",
     props_modules=["OW.Props.C04"],
-    families=[Family("W", rtol=1e-9, atol_scale=1e-12, args=["models=" + ",".join(ALL_MODELS), "n=12"])],
+    families=[Family("W", rtol=1e-9, atol_scale=1e-12, tol_by_model=TOL_BY_MODEL, args=["models=" + ",".join(ALL_MODELS), "n=12"] + EXTRA_ARGS)],
     level="proof",
     trusted=[
         "hand-written list-level Lean semantics OW/Sim/Wrapper.lean of the wrapper template pre/ow-specgen/generated_struct.got "
